@@ -158,7 +158,7 @@ func Structured(n int, a, b, c byte, f func(name string, s []byte)) {
 	emit("period-doubling", PeriodDoubling(n, a, b))
 }
 
-// LargeTexts returns three deterministic texts of n bytes whose parsing
+// LargeTexts returns four deterministic texts of n bytes whose parsing
 // crosses the 32 KiB read chunk of ReadFrom, several buffer fills of tens of
 // kilobytes and offsets/lengths beyond 2^16: a de Bruijn word over four
 // letters (every 8-gram once: few matches), a Fibonacci word (long matches at
@@ -177,5 +177,9 @@ func LargeTexts(n int) [][]byte {
 			txt = append(txt, byte('0'+i%10), 0, 0xff)
 		}
 	}
-	return [][]byte{db[:n], Fibonacci(n, 'a', 'b'), txt[:n]}
+	per := make([]byte, n)
+	for i := range per {
+		per[i] = "abcde"[i%5] // one match of n-5 bytes at offset 5 (not a power of two): lengths far beyond 2^16
+	}
+	return [][]byte{db[:n], Fibonacci(n, 'a', 'b'), txt[:n], per}
 }
